@@ -97,6 +97,8 @@ func cli(env *core.Env, root string, stdin []byte, args ...string) *sut.Result {
 	switch (h >> 27) % 6 {
 	case 1:
 		extra = []string{"TMPDIR=/nonexistent-tmp-dir"}
+	case 4:
+		extra = []string{"TMPDIR=/dev/shm"} // another file system than the tree
 	case 2:
 		extra = []string{"HOME=/nonexistent-home", "LANG=tr_TR.UTF-8", "LC_ALL=tr_TR.UTF-8"}
 	case 3:
